@@ -61,6 +61,10 @@ class ACLObservation(AbstractObservation, discriminator="acl"):
         """
         self.where = where
         self.num_rules: int = num_rules
+        # a value listed twice must not get an id beyond the space, which is sized by the number of distinct values
+        ip_list, wildcard_list, port_list, protocol_list = (
+            list(dict.fromkeys(values)) for values in (ip_list, wildcard_list, port_list, protocol_list)
+        )
         self.ip_to_id: Dict[str, int] = {p: i + 2 for i, p in enumerate(ip_list)}
         self.wildcard_to_id: Dict[str, int] = {p: i + 2 for i, p in enumerate(wildcard_list)}
         self.port_to_id: Dict[str, int] = {p: i + 2 for i, p in enumerate(port_list)}
